@@ -122,3 +122,39 @@ Definition v_gen_cum (pofx x us : list Q) (out : result (list Q)) : Z :=
            | Err a, Err b => err_eqb a b
            | _, _ => false
            end) true.
+
+(* ---------------------------------------------------------------- per-deviate tolerance
+   A deviate below the first tabulated cumulative value p0 is EXTRAPOLATED along the first segment:
+   value = (u - p0) * (x1 - x0) / (p1 - p0) + x0.  The float error of the difference p1 - p0 (two numbers
+   of order 1, each good to 1 ulp) is relative eps / (p1 - p0), and it is multiplied by the distance
+   |u - p0| measured in segment widths.  Inside its segment that factor is <= 1 (already in gen_tol);
+   outside it is (p0 - u) / (p1 - p0).  ucond is that factor; the tolerance of deviate u is tol * ucond u. *)
+Definition ucond (pcum : list Q) (u : Q) : Q :=
+  let p0 := qnth pcum 0 in
+  let p1 := qnth pcum 1 in
+  if Qlt_bool u p0 then Qred (1 + (p0 - u) / (p1 - p0)) else 1.
+
+Definition gen_check_tu (tol : Q) (xvals pcum us outs : list Q) : bool :=
+  all2 (fun u o => match interplin xvals pcum u with
+                   | Ok y => close_b (tol * ucond pcum u) y o
+                   | Err _ => false
+                   end) us outs.
+
+Definition v_gen_u (k : Q) (pofx x us : list Q) (out : result (list Q)) : Z :=
+  let tbl := gen_tables false pofx x in
+  let xvals := fst tbl in
+  let pcum := snd tbl in
+  let tol := Qred (k * (relq * (qmaxabs x + max_slope xvals pcum))) in
+  verdict (match gen_sample false pofx x us, out with
+           | Ok m, Ok o => all2 (fun um o' => close_b (tol * ucond pcum (fst um)) (snd um) o') (combine us m) o
+           | Err a, Err b => err_eqb a b
+           | _, _ => false
+           end)
+          (if gen_ok_b pofx x then
+             match out with
+             | Ok o => gen_check_tu tol xvals pcum us o
+                       && pairs_mono_b (2 * tol) (combine us o)
+                       && in_grid_b tol (qnth pcum 0) x (combine us o)
+             | Err _ => false
+             end
+           else true).
